@@ -7,7 +7,7 @@ use crate::view::View;
 fn budget(t: Tier) -> u64 {
     match t {
         Tier::Quick => 1600,
-        Tier::Thorough => 80_000,
+        Tier::Thorough => 160_000,
     }
 }
 
